@@ -535,6 +535,21 @@ def r05_11(ctx):
         if t and "self.B" in t and ("sum" in t) and "1" in t:
             checked = True
     computed = any(isinstance(st, ast.Assign) and ast.unparse(st.targets[0]) == "self.B" and "solve" in ast.unparse(st.value) for st in walk_no_nested(f.node))
+    # when the weights of the coefficient routine are kept under a condition, that condition has to bound the deviation of their sum
+    # from one on BOTH sides (abs(..) or a two-sided comparison): the single Radau point gives 0.5, i.e. a NEGATIVE excess
+    two_sided = True
+    tests = []
+    for st in walk_no_nested(f.node):
+        if isinstance(st, ast.Assign) and ast.unparse(st.targets[0]) == "self.B":
+            if isinstance(st.value, ast.IfExp):
+                tests.append(st.value.test)
+            tests += [t for t, _ in sc.path_guards(st) if "sum" in ast.unparse(t)]
+    for t in tests:
+        txt = ast.unparse(t)
+        if "sum" in txt and not ("abs(" in txt or isinstance(t, ast.BoolOp) or (isinstance(t, ast.Compare) and len(t.ops) > 1)):
+            two_sided = False
+    ctx.check(two_sided, "DirectCollocation repairs the quadrature weights whenever their sum deviates from one, in either direction", detail="a one-sided test keeps weights that sum to less than one (single Radau point: 0.5, every integral halved)",
+              expected="abs(sum(B) - 1) > tol (or a two-sided comparison)", found="; ".join(ast.unparse(t)[:80] for t in tests), fi=f)
     ctx.check(uses_B and (checked or computed), "DirectCollocation quadrature weights sum to one", detail="weights taken from collocation_coeff unchecked: for degree=1, scheme='radau' they are [0.5] and every integral / quadrature state is halved",
               expected="if the weights do not sum to 1: recompute them on the collocation points (moment conditions) or raise", found="no check of sum(self.B)", fi=f)
 
